@@ -126,3 +126,53 @@ func TestGovcC03TimeTravel(t *testing.T) {
 }
 
 var _ = client.Active
+
+// TestGovcC03MergeCommit: time travel to a commit that has two parents (a local update made after a
+// concurrent remote branch was merged), and to a commit after it.  The state at that commit is the merge
+// of both branches plus its own write.
+func TestGovcC03MergeCommit(t *testing.T) {
+	ctx := context.Background()
+	a := newReplica(t, ctx, "a", mhSchema)
+	b := newReplica(t, ctx, "b", mhSchema)
+	defer a.db.Close()
+	defer b.db.Close()
+	docID, err := a.create(ctx, `{"name":"v0","age":1,"points":1}`)
+	if err != nil {
+		t.Fatal(err)
+	}
+	ha, _ := a.docHeads(ctx, docID)
+	if err := deliver(ctx, a, b, docID, ha[0]); err != nil {
+		t.Fatal(err)
+	}
+	if err := a.update(ctx, docID, "name", "fromA"); err != nil {
+		t.Fatal(err)
+	}
+	if err := b.update(ctx, docID, "points", int64(5)); err != nil {
+		t.Fatal(err)
+	}
+	hb, _ := b.docHeads(ctx, docID)
+	if err := deliver(ctx, b, a, docID, hb[0]); err != nil {
+		t.Fatal(err)
+	}
+	if hs, _ := a.docHeads(ctx, docID); len(hs) != 2 {
+		t.Fatalf("expected two heads on a before the merging update, got %d", len(hs))
+	}
+	if err := a.update(ctx, docID, "age", int64(2)); err != nil {
+		t.Fatal(err)
+	}
+	hm, _ := a.docHeads(ctx, docID)
+	if len(hm) != 1 {
+		t.Fatalf("expected one head after the merging update, got %d", len(hm))
+	}
+	want, err := c03Query(ctx, a.db, fmt.Sprintf(`query { Users(docID: %q) { name age points } }`, docID))
+	if err != nil {
+		t.Fatal(err)
+	}
+	got, err := c03Query(ctx, a.db, fmt.Sprintf(`query { Users(cid: %q, docID: %q) { name age points } }`, hm[0].String(), docID))
+	if err != nil {
+		t.Fatalf("C03: time travel to a commit with two parents failed: %v", err)
+	}
+	if fmt.Sprint(got) != fmt.Sprint(want) {
+		t.Errorf("C03: at the merge commit: time travel %v, ordinary read right after it %v", got, want)
+	}
+}
